@@ -768,9 +768,11 @@ func c20Sig(sc *c20Scenario, ev *c20Event, field string) string {
 	return field
 }
 
-func c20Clip(s string) string {
-	if len(s) > 300 {
-		return fmt.Sprintf("%s...(%d bytes)", s[:300], len(s))
+func c20Clip(s string) string { return c20ClipN(s, 300) }
+
+func c20ClipN(s string, n int) string {
+	if len(s) > n {
+		return fmt.Sprintf("%s...(%d bytes)", s[:n], len(s))
 	}
 	return s
 }
@@ -936,7 +938,7 @@ func runC20(r *simcore.Run) {
 			rt := &sc.Routes[rq.Route]
 			res := e.results[rq.ID]
 			seen := e.seen[rq.ID]
-			what := fmt.Sprintf("%s %s (id %s, route to %s://%s)", rq.Method, c20URI(rq), rq.ID, rt.Scheme, rt.Host)
+			what := fmt.Sprintf("%s %s (id %s, route to %s://%s)", rq.Method, c20ClipN(c20URI(rq), 60), rq.ID, rt.Scheme, rt.Host)
 			if res == nil {
 				r.Trouble("no result for %s", rq.ID)
 				return
@@ -1136,7 +1138,7 @@ func runC20(r *simcore.Run) {
 					sig = "trailing-bytes"
 				}
 				r.Fail("field", sig, "request %s %s (id %s) from %s via %s://%s, status %d, %d body bytes, clock %v: logged line\n  %s\ndiffers from the reference at part %d (%s), acceptable there: %q (format %q)",
-					ev.rq.Method, c20Clip(c20URI(ev.rq)), ev.rq.ID, ev.remote, ev.rt.Scheme, ev.rt.Host, ev.status, ev.size, ev.times, strconv.Quote(c20Clip(l)), at, field+sc.partLit(at), want, c20Clip(sc.Format))
+					ev.rq.Method, c20ClipN(c20URI(ev.rq), 60), ev.rq.ID, ev.remote, ev.rt.Scheme, ev.rt.Host, ev.status, ev.size, ev.times, strconv.Quote(c20Clip(l)), at, field+sc.partLit(at), want, c20Clip(sc.Format))
 				continue
 			}
 		}
@@ -1149,7 +1151,7 @@ func runC20(r *simcore.Run) {
 	for j, ev := range events {
 		if matchOfEvent[j] < 0 && !blamed[j] {
 			r.Fail("lines", "missing", "request %s %s (id %s) was answered with status %d but no line of the access log describes it (%d lines, %d answered requests, format %q)",
-				ev.rq.Method, c20Clip(c20URI(ev.rq)), ev.rq.ID, ev.status, len(writes), len(events), c20Clip(sc.Format))
+				ev.rq.Method, c20ClipN(c20URI(ev.rq), 60), ev.rq.ID, ev.status, len(writes), len(events), c20Clip(sc.Format))
 		}
 	}
 	if len(writes) > len(events) {
